@@ -721,3 +721,68 @@ Example ex_unique : bitvUnique1IndexInRange c70 [2 ^ 63; 1] 10 70 = -1
 Proof. repeat split; vm_compute; reflexivity. Qed.
 Example ex_int : bitvToInt (bitvClassCreate 8) (bitvFromInt (bitvClassCreate 8) [12345] (-3)) = 253.
 Proof. vm_compute. reflexivity. Qed.
+
+(* ------------------------------------------------------------------ the printers *)
+Lemma unprint_app : forall s t, unprint (s ++ t) = unprint s ++ unprint t.
+Proof.
+  induction s as [|ch s IH]; intros t; [reflexivity|].
+  destruct ch; cbn [app unprint]; rewrite ?IH; reflexivity.
+Qed.
+
+Lemma unprint_loop : forall c a cnt i, unprint (printLoop c a i cnt) = map (bitvTest c a) (seq i cnt).
+Proof.
+  intros c a cnt. induction cnt as [|k IH]; intros i; [reflexivity|].
+  cbn [printLoop seq map].
+  destruct (bitvTest c a i); destruct (Nat.eqb (Nat.modulo i 5) 4); cbn [app unprint]; rewrite IH; reflexivity.
+Qed.
+
+Lemma toString_reads_back : forall c a, unprint (bitvToString c a) = bits c a.
+Proof.
+  intros. unfold bitvToString, bits. cbn [unprint]. rewrite unprint_app, unprint_loop. cbn [unprint].
+  apply app_nil_r.
+Qed.
+
+Lemma printLoop_length : forall c a cnt i,
+  (length (printLoop c a i cnt) + i / 5 = cnt + (i + cnt) / 5)%nat.
+Proof.
+  intros c a cnt. induction cnt as [|k IH]; intros i; cbn [printLoop length].
+  - rewrite Nat.add_0_r. reflexivity.
+  - rewrite app_length. specialize (IH (S i)).
+    destruct (Nat.eqb (Nat.modulo i 5) 4) eqn:E; cbn [length].
+    + apply Nat.eqb_eq in E. replace (i + S k)%nat with (S i + k)%nat by lia.
+      assert (S i / 5 = i / 5 + 1)%nat by lia. lia.
+    + apply Nat.eqb_neq in E. replace (i + S k)%nat with (S i + k)%nat by lia.
+      assert (S i / 5 = i / 5)%nat by lia. lia.
+Qed.
+
+Lemma toString_length : forall c a, length (bitvToString c a) = (2 + nbits c + nbits c / 5)%nat.
+Proof.
+  intros. unfold bitvToString. cbn [length]. rewrite app_length. cbn [length].
+  pose proof (printLoop_length c a (nbits c) 0) as H. cbn [Nat.add] in H.
+  rewrite (Nat.div_small 0 5) in H by lia. lia.
+Qed.
+
+(* the text depends on the set only, and tells two different sets apart *)
+Lemma printLoop_ext : forall c a b cnt i,
+  map (bitvTest c a) (seq i cnt) = map (bitvTest c b) (seq i cnt) -> printLoop c a i cnt = printLoop c b i cnt.
+Proof.
+  intros c a b cnt. induction cnt as [|k IH]; intros i H; [reflexivity|].
+  cbn [seq map] in H. injection H as H0 H1. cbn [printLoop]. rewrite H0, (IH _ H1). reflexivity.
+Qed.
+
+Lemma toString_inj : forall c a b, bitvToString c a = bitvToString c b <-> bits c a = bits c b.
+Proof.
+  intros c a b. split; intros H.
+  - rewrite <- !toString_reads_back, H. reflexivity.
+  - unfold bitvToString. f_equal. f_equal. apply printLoop_ext. exact H.
+Qed.
+
+Lemma print_is_toString : forall c a,
+  fst (bitvPrint c a) = bitvToString c a /\ snd (bitvPrint c a) = length (bitvToString c a).
+Proof. intros. split; reflexivity. Qed.
+
+Example ex_print : bitvToString c70 [5; 33]
+  = [PLbr; POne; PZero; POne; PZero; PZero; PSpace] ++ concat (repeat [PZero; PZero; PZero; PZero; PZero; PSpace] 11)
+    ++ [PZero; PZero; PZero; PZero; POne; PSpace; PZero; PZero; PZero; PZero; POne; PSpace; PRbr]
+  /\ snd (bitvPrint c70 [5; 33]) = 86%nat.
+Proof. split; vm_compute; reflexivity. Qed.
